@@ -375,6 +375,104 @@ func c05Run(r *Run) {
 		}
 	}
 
+	// a recovered Go panic leaves the recovering function as a control: the deferred closure that calls
+	// recover() stores a non-nil control into a *named result* of the enclosing function (a store into a
+	// local is lost when the function unwinds: the panic is swallowed and neither catch nor the caller sees it)
+	for fn, fd := range methods {
+		_ = fn
+		ast.Inspect(fd.Body, func(n ast.Node) bool {
+			ds, ok := n.(*ast.DeferStmt)
+			if !ok {
+				return true
+			}
+			lit, ok := ast.Unparen(ds.Call.Fun).(*ast.FuncLit)
+			if !ok {
+				return true
+			}
+			recovers := false
+			ast.Inspect(lit.Body, func(m ast.Node) bool {
+				if c, ok := m.(*ast.CallExpr); ok {
+					if id, ok := ast.Unparen(c.Fun).(*ast.Ident); ok && id.Name == "recover" {
+						if _, isBuiltin := info.Uses[id].(*types.Builtin); isBuiltin {
+							recovers = true
+						}
+					}
+				}
+				return true
+			})
+			if !recovers {
+				return true
+			}
+			results := map[types.Object]bool{}
+			if fd.Type.Results != nil {
+				for _, f := range fd.Type.Results.List {
+					for _, nm := range f.Names {
+						results[info.Defs[nm]] = true
+					}
+				}
+			}
+			toResult, toLocal := false, token.NoPos
+			ast.Inspect(lit.Body, func(m ast.Node) bool {
+				as, ok := m.(*ast.AssignStmt)
+				if !ok {
+					return true
+				}
+				for i, l := range as.Lhs {
+					// a field of a per-execution state object reached through a pointer outlives the call too
+					if se, ok := ast.Unparen(l).(*ast.SelectorExpr); ok && isNamed(info.TypeOf(se), modPath+"/data", "Control") {
+						if sel, ok := info.Selections[se]; ok && sel.Kind() == types.FieldVal {
+							if base, ok := ast.Unparen(se.X).(*ast.Ident); ok {
+								if _, isPtr := info.TypeOf(base).(*types.Pointer); isPtr {
+									var rhs ast.Expr
+									if len(as.Rhs) == len(as.Lhs) {
+										rhs = as.Rhs[i]
+									}
+									if rhs == nil || exprStr(rhs) != "nil" {
+										toResult = true
+									}
+								}
+							}
+						}
+						continue
+					}
+					id, ok := l.(*ast.Ident)
+					if !ok {
+						continue
+					}
+					o := info.Uses[id]
+					if o == nil || !isNamed(o.Type(), modPath+"/data", "Control") {
+						continue
+					}
+					var rhs ast.Expr
+					if len(as.Rhs) == len(as.Lhs) {
+						rhs = as.Rhs[i]
+					} else if len(as.Rhs) == 1 {
+						rhs = as.Rhs[0]
+					}
+					if rhs != nil && exprStr(rhs) == "nil" {
+						continue
+					}
+					if results[o] {
+						toResult = true
+					} else if v, ok := o.(*types.Var); ok && v.Pos() >= fd.Pos() && v.Pos() < lit.Pos() {
+						toLocal = as.Pos()
+					}
+				}
+				return true
+			})
+			key := funcKey(npkg, fd) + "#panic-becomes-control"
+			switch {
+			case toResult:
+				r.ok(key, ds.Pos(), "the recovered panic is handed out through a named result of the recovering function (or stored in state that outlives it)")
+			case toLocal != token.NoPos:
+				r.bad(key, toLocal, "the recovered panic is converted into a control but stored in a local variable, not in a named result: once the function has unwound nothing returns it, so a Go panic inside try is swallowed (no catch runs, the script continues)")
+			default:
+				r.bad(key, ds.Pos(), "the deferred recover does not hand a control out of the function: a Go panic inside try is swallowed")
+			}
+			return true
+		})
+	}
+
 	// ---- CATCH ----
 	r.curRule = "C05-CATCH"
 	var catchFn *ast.FuncDecl
